@@ -401,6 +401,42 @@ func (w *gWorld) do(m *router.Router, path string, info router.VerifC20Info, rq 
 	return ok, h, rec.Code
 }
 
+// Every request with a dead native token costs the server one Argon2id key derivation
+// (32 MiB, ~40 ms idle, ~1 s on a saturated machine): those forms are sent to a
+// seeded sample of the targets in the quick tier (VERIF_EXPENSIVE=k; 0 = all).
+func gExpensive(form string) bool {
+	return form == "token_expired" || form == "token_tampered" || form == "token_revoked"
+}
+
+// gPick marks k of n indices (all when k <= 0 or k >= n), deterministically from seed.
+func gPick(n, k, seed int) map[int]bool {
+	out := map[int]bool{}
+	if k <= 0 || k >= n {
+		for i := 0; i < n; i++ {
+			out[i] = true
+		}
+
+		return out
+	}
+	x := uint64(seed)*0x9E3779B97F4A7C15 + 0xC20
+	idx := make([]int, n)
+	for i := range idx {
+		idx[i] = i
+	}
+	for i := n - 1; i > 0; i-- {
+		x ^= x << 13
+		x ^= x >> 7
+		x ^= x << 17
+		j := int(x % uint64(i+1))
+		idx[i], idx[j] = idx[j], idx[i]
+	}
+	for _, i := range idx[:k] {
+		out[i] = true
+	}
+
+	return out
+}
+
 type gJob struct {
 	m     *router.Router
 	path  string
@@ -487,6 +523,8 @@ func TestVerifC20Gate(t *testing.T) {
 	perSeq := vkEnv("VERIF_PERSEQ", "0") == "1"
 	mode := vkEnv("VERIF_MODE", "both")
 	workers := vkEnvInt("VERIF_WORKERS", 6)
+	expensive := vkEnvInt("VERIF_EXPENSIVE", 0)
+	seed := vkEnvInt("VERIF_SEED", 1)
 	libRoot := vkEnv("VERIF_LIBROOT", "")
 	dir := vkEnv("VERIF_TMP", "")
 	if dir == "" {
@@ -593,6 +631,7 @@ func TestVerifC20Gate(t *testing.T) {
 			calls []gCall
 			flags router.VerifC20Flags
 			n     int
+			first bool // first declaration with this route record
 		}
 		byFlags := map[string]*slot{}
 		var order []*slot
@@ -622,24 +661,41 @@ func TestVerifC20Gate(t *testing.T) {
 			s := &slot{m: m, route: rt, calls: b.Calls, flags: f, n: 1}
 			if _, ok := byFlags[k]; !ok {
 				byFlags[k] = s
+				s.first = true
 			}
 			order = append(order, s)
 		}
 		sum.DistinctFlags = len(byFlags)
-		recs := make([]gReqRec, 0, len(order)*len(reqs))
-		jobs := make([]gJob, 0, len(order)*len(reqs))
+		firsts := 0
 		for _, s := range order {
-			for _, rq := range reqs {
-				recs = append(recs, gReqRec{Kind: "req", Src: "gen", Route: "gen", Flags: s.flags, Req: rq, N: 1, Calls: s.calls})
+			if s.first {
+				firsts++
 			}
 		}
-		k := 0
+		pick := gPick(firsts, expensive, seed)
+		type pair struct {
+			s  *slot
+			rq gReq
+		}
+		var pairs []pair
+		fi := 0
 		for _, s := range order {
-			info := s.route.VerifC20Info()
-			for range reqs {
-				jobs = append(jobs, gJob{m: s.m, path: "/verif/c20/gate", info: info, rec: &recs[k], owner: info.Method + " " + info.Endpoint})
-				k++
+			for _, rq := range reqs {
+				if gExpensive(rq.Form) && !(s.first && pick[fi]) {
+					continue
+				}
+				pairs = append(pairs, pair{s, rq})
 			}
+			if s.first {
+				fi++
+			}
+		}
+		recs := make([]gReqRec, len(pairs))
+		jobs := make([]gJob, len(pairs))
+		for k, p := range pairs {
+			info := p.s.route.VerifC20Info()
+			recs[k] = gReqRec{Kind: "req", Src: "gen", Route: "gen", Flags: p.s.flags, Req: p.rq, N: 1, Calls: p.s.calls}
+			jobs[k] = gJob{m: p.s.m, path: "/verif/c20/gate", info: info, rec: &recs[k], owner: info.Method + " " + info.Endpoint}
 		}
 		if err := w.runJobs(jobs, workers); err != nil {
 			finish("gen: " + err.Error())
@@ -726,13 +782,46 @@ func TestVerifC20Gate(t *testing.T) {
 			allp = append(allp, p)
 		}
 		users["t_all"] = gSorted(allp)
+		// one user per distinct permission set
 		unames := []string{}
-		for u, ps := range users {
-			unames = append(unames, u)
-			sum.TableUsers[u] = ps
+		{
+			names := []string{}
+			for u := range users {
+				names = append(names, u)
+			}
+			base := map[string]bool{"t_root": true, "t_all": true, "t_plain": true, "t_none": true}
+			sort.Slice(names, func(i, j int) bool {
+				if base[names[i]] != base[names[j]] {
+					return base[names[i]]
+				}
+
+				return names[i] < names[j]
+			})
+			seenSet := map[string]bool{}
+			for _, u := range names {
+				ded := []string{}
+				for _, p := range gSorted(users[u]) {
+					if len(ded) == 0 || ded[len(ded)-1] != p {
+						ded = append(ded, p)
+					}
+				}
+				users[u] = ded
+				k := strings.Join(ded, ",")
+				if seenSet[k] && !base[u] {
+					delete(users, u)
+
+					continue
+				}
+				seenSet[k] = true
+			}
+			for u, ps := range users {
+				unames = append(unames, u)
+				sum.TableUsers[u] = ps
+			}
+			sort.Strings(unames)
 		}
-		sort.Strings(unames)
 		strong := []string{"t_all", "t_root"}
+		tokenStrong := []string{"t_root"}
 		jwtPerms := func(ps []string) []string {
 			if len(ps) == 0 {
 				return []string{defs.LogonPermission}
@@ -759,7 +848,7 @@ func TestVerifC20Gate(t *testing.T) {
 				treqs = append(treqs, gReq{Form: f, Sub: "t_root", SubPerms: users["t_root"], IDPerms: jwtPerms(users["t_plain"])})
 				treqs = append(treqs, gReq{Form: f, Sub: "t_all", SubPerms: users["t_all"], IDPerms: jwtPerms(users["t_plain"])})
 			case "token_expired", "token_tampered", "token_revoked":
-				for _, u := range strong {
+				for _, u := range tokenStrong {
 					treqs = append(treqs, gReq{Form: f, Sub: u, SubPerms: users[u], IDPerms: users[u]})
 				}
 			case "jwt_badsig", "jwt_expired":
@@ -800,23 +889,43 @@ func TestVerifC20Gate(t *testing.T) {
 			tgts = append(tgts, tgt{rt, path, info})
 		}
 		sum.TableAddressed = len(tgts)
-		for _, tg := range tgts {
+		// dead native tokens: every route (thorough) or one route per distinct route record (quick)
+		flagFirst := map[string]bool{}
+		var firstIdx []int
+		for i, tg := range tgts {
+			k := vkJSON(tg.rt.VerifC20Flags())
+			if !flagFirst[k] {
+				flagFirst[k] = true
+				firstIdx = append(firstIdx, i)
+			}
+		}
+		sendExpensive := map[int]bool{}
+		for i := range tgts {
+			sendExpensive[i] = expensive <= 0
+		}
+		tpick := gPick(len(firstIdx), expensive, seed+1)
+		for n, i := range firstIdx {
+			if tpick[n] {
+				sendExpensive[i] = true
+			}
+		}
+		for i, tg := range tgts {
 			method := tg.info.Method
 			if method == router.AnyMethod {
 				method = http.MethodGet
 			}
 			for _, rq := range treqs {
+				if gExpensive(rq.Form) && !sendExpensive[i] {
+					continue
+				}
 				rq.Method = method
 				recs = append(recs, gReqRec{Kind: "req", Src: "table", Route: tg.info.Method + " " + tg.info.Endpoint,
 					Flags: tg.rt.VerifC20Flags(), Req: rq, N: 1, Calls: []gCall{}})
+				jobs = append(jobs, gJob{m: m, path: tg.path, info: tg.info, owner: tg.info.Method + " " + tg.info.Endpoint})
 			}
 		}
-		k := 0
-		for _, tg := range tgts {
-			for range treqs {
-				jobs = append(jobs, gJob{m: m, path: tg.path, info: tg.info, rec: &recs[k], owner: tg.info.Method + " " + tg.info.Endpoint})
-				k++
-			}
+		for k := range jobs {
+			jobs[k].rec = &recs[k]
 		}
 		if err := w.runJobs(jobs, workers); err != nil {
 			finish("table: " + err.Error())
